@@ -1,4 +1,5 @@
 //! Shared harness glue between the explorer binaries and lexical's public API.
 pub mod common;
 pub mod floatfam;
+pub mod intglue;
 pub mod valfam;
